@@ -255,13 +255,14 @@ PROPERTIES["C20"] = {
 DOCSTART = {
     "c16_docstart_stream_end": "[StreamEnd]", "c16_docstart_skip_doc_ends": "[DocumentEnd, DocumentEnd, StreamEnd]", "c16_docstart_implicit_scalar": "[Scalar]",
     "c16_docstart_explicit": "[DocumentStart, Scalar]", "c16_docstart_explicit_required_missing": "[Scalar] where '---' is required",
-    "c16_docstart_version": "[%YAML, ---]", "c16_docstart_two_versions": "[%YAML, %YAML, ---]", "c16_docstart_two_tags": "[%TAG h1, %TAG h2, ---]",
-    "c16_docstart_tag_then_version": "[%TAG h, %YAML, ---]", "c16_docstart_three_tags": "[%TAG h1, %TAG h2, %TAG h3, ---]",
-    "c16_docstart_tag_without_docstart": "[%TAG h, Scalar]", "c16_docstart_directive_then_eof": "[%YAML] then scanner error",
+    "c16_docstart_version": "[%YAML, ---]", "c16_docstart_two_versions": "[%YAML, %YAML, ---]", "c16_docstart_two_tags": "[%TAG !b!, %TAG !!, ---]",
+    "c16_docstart_two_tags_same_handle": "[%TAG !b!, %TAG !b!, ---]", "c16_docstart_redeclare_kept_handle": "[%TAG !a!, %TAG !, ---] where !a! may be kept from an earlier document",
+    "c16_docstart_tag_then_version": "[%TAG !b!, %YAML, ---]", "c16_docstart_three_tags": "[%TAG !!, %TAG !b!, %TAG !, ---]",
+    "c16_docstart_tag_without_docstart": "[%TAG !b!, Scalar]", "c16_docstart_directive_then_eof": "[%YAML] then scanner error",
 }
 def DS(name):
     return H(name, "lm.parser", ["Parser::document_start", "Parser::explicit_document_start", "Parser::parser_process_directives"],
-             "token template " + DOCSTART[name] + " x every handle/prefix choice (4 handles) x keep_tags on/off x handle table of an earlier document",
+             "token template " + DOCSTART[name] + " x keep_tags on/off x handle table of an earlier document",
              stubs=[LM_STUB, INJ])
 PROPERTIES["C02"]["harnesses"] += [DS(n) for n in ["c16_docstart_stream_end", "c16_docstart_skip_doc_ends", "c16_docstart_implicit_scalar", "c16_docstart_explicit"]]
 RESOLVE = {"c16_resolve_no_directives": "no directive", "c16_resolve_all_directives": "!a! !b! !! ! all bound", "c16_resolve_named_only": "!a! !b! bound, anchor before tag",
@@ -269,8 +270,8 @@ RESOLVE = {"c16_resolve_no_directives": "no directive", "c16_resolve_all_directi
 PROPERTIES["C16"] = {
     "level": "model_checking",
     "level_text": "Bounded model checking of the real directive processing and tag resolution (Parser::parser_process_directives, resolve_tag, document_end) "
-                  "over injected token templates: for every directive prologue shape of up to 3 directives, EVERY choice of handles/prefixes from the pool, "
-                  "keep_tags on/off and a handle table left by an earlier document, the table in force after '---' equals the reference (all %TAG of the "
+                  "over injected token templates: for 14 directive prologue shapes of up to 3 directives (handles fixed per template), keep_tags on/off and "
+                  "the handle table left by an earlier document, the table in force after '---' equals the reference (all %TAG of the "
                   "document together, duplicates rejected, repeated %YAML rejected, directives without '---' rejected); for every tag spelling "
                   "(!!s !a!s !b!s !c!s !s !<v> !) under 5 handle tables the reported tag is prefix-of-handle + suffix, undeclared named handles are errors.",
     "level_note": "Token KIND sequences are concrete templates (a symbolic kind sequence makes the directive loops explode); payloads, options and tables are "
@@ -415,7 +416,7 @@ PROPERTIES["C01"] = {
     "level_text": "Bounded model checking of the panic sites and loops named by the property, unit by unit, on the real code: every required StrInput method "
                   "after every history of 3 skip/read/peek calls on every valid UTF-8 buffer (no panic, never inside a character); the StrInput fast paths "
                   "(fetch_while_is_alpha slicing, next_can_be_plain_scalar byte indexing) on every buffer; block-scalar indentation skipping through the "
-                  "16-slot BufferedInput for every indentation/space-run 0..19 (no ring overflow, no peek beyond the look-ahead); the flow-level counter "
+                  "16-slot BufferedInput for indentations 13..17 around the buffer size x every following text <= 3 (no ring overflow, no peek beyond the look-ahead); the flow-level counter "
                   "from every level (error at 255, never wraps); whitespace/comment skipping on all texts <= 2-3 (terminates within the unwinding bound); "
                   "and ONE parser step from an arbitrary well-formed configuration over all token sequences for every state (no pop_state/fetch_token/"
                   "unreachable panic; by induction no panic for token streams of any length - see C02). Unwinding assertions give termination within bounds.",
@@ -426,8 +427,8 @@ PROPERTIES["C01"] = {
                   H("c10_fetch_while_is_alpha", "parser.input_str", ["StrInput::fetch_while_is_alpha"], UTF8 % 4),
                   H("c10_next_can_be_plain_scalar", "parser.input_str", ["StrInput::next_can_be_plain_scalar"], UTF8 % 4),
                   H("c01_increase_flow_level", "parser.scanner", ["Scanner::increase_flow_level"], "every flow_level 0..=255"),
-                  H("c01_block_scalar_indent_buffered", "parser.scanner", ["Scanner::skip_block_scalar_indent", "BufferedInput::lookahead", "BufferedInput::peek", "BufferedInput::peek_nth", "Scanner::read_break", "Scanner::skip_break"],
-                    "indent 0..=19 x 0..=19 spaces x every tail of 0..3 chars over {sp, LF, CR, a}", timeout={"quick": 900, "thorough": 1800}),
+                  ] + [H("c01_block_scalar_indent_buffered_" + v, "parser.scanner", ["Scanner::skip_block_scalar_indent", "BufferedInput::lookahead", "BufferedInput::peek", "BufferedInput::peek_nth", "Scanner::read_break", "Scanner::skip_break"],
+                         "indentation / space run " + v + " (around the 16-slot buffer) x every tail of 0..3 chars over {sp, LF, CR, a}") for v in ["13", "14", "15", "16", "17", "15_short"]] + [
                   H("c12_skip_to_next_token_top_2", "parser.scanner", ["Scanner::skip_to_next_token"], SCAN_UNIT_HARNESSES["c12_skip_to_next_token_top_2"])]
                  + [H(n, "lm.parser", PARSER_FUNCS, "parser step from an arbitrary configuration, see C02", stubs=[LM_STUB, INJ], timeout={"quick": 900, "thorough": 1800}) for n in C01_STEPS_Q]
                  + [H(n, "lm.parser", PARSER_FUNCS, "parser step from an arbitrary configuration, see C02", stubs=[LM_STUB, INJ], tiers=T, timeout={"thorough": 1800}) for n in C01_STEPS_T],
